@@ -161,7 +161,8 @@ class Sched:
             if p is None or th.done:
                 continue
             for a in p.alts():
-                out.append((th, a, (p.weight_low and a == "timeout") or p.kind in self.lazy))
+                out.append((th, a, (p.weight_low and a == "timeout") or p.kind in self.lazy
+                            or f"{th.name}:{p.kind}" in self.lazy))
         return out
 
     def _advance_time(self) -> bool:
